@@ -54,7 +54,7 @@ func runC03(c *Ctx, ev *Evidence) ([]Violation, error) {
 	ev.Assume("A3: url.Parse / URL.String are uninterpreted functions of the string (ok, scheme, host, normal form) that a WHATWG parser agrees with on strings free of white space and control characters",
 		"data: URIs with embedded white space (deliberately tolerated, base64 line breaks) are only required to pass the scheme rule; the white-space rule is checked for every other value",
 		"RequireParseableURLs is on (every URL option implies it)")
-	ur, err := c.exploreUnit(ev, "HarnessC03_urls", sym.Config{Params: map[string]int{"schemeEntries": entries, "maxAttrs": maxAttrs}})
+	ur, err := c.exploreUnit(ev, "HarnessC03_urls", sym.Config{Params: map[string]int{"schemeEntries": entries, "maxAttrs": maxAttrs, "onlyPos": 0}})
 	if err != nil {
 		return nil, err
 	}
